@@ -29,9 +29,11 @@ z_number::operator int64_t() const {
   if (fits_sint()) {
     return (int64_t)mpz_get_si(_n);
   } else if (fits_int64()) {
-    int64_t res = 0;
-    mpz_export(&res, 0 /*NULL*/, 1, sizeof(int64_t), 0, 0, _n);
-    return ((mpz_sgn(_n) < 0) ? -res : res);
+    // The magnitude is exported and negated as an unsigned number: for
+    // INT64_MIN the magnitude is 2^63 and -res would overflow int64_t.
+    uint64_t res = 0;
+    mpz_export(&res, 0 /*NULL*/, 1, sizeof(uint64_t), 0, 0, _n);
+    return (int64_t)((mpz_sgn(_n) < 0) ? (0 - res) : res);
   } else {
     CRAB_ERROR("z_number ", get_str(), " does not fit into int64_t");
   }
